@@ -62,7 +62,10 @@ def small_project(rnd, nfiles=3, stmts=(1, 4), structured=False, use_cache=None,
             pre, st, post = gen.build_stmt(f, "BIG%s_%d" % (label, k), rnd, eol=eol)
             gf.add_stmt(pre, st, post)
             gf.newline()
-            gf.raw("    // " + "-=" * rnd.randrange(20, 400) + eol)
+            # ~150 statements whatever the size: run time is O(statements x file size) (DESIGN 13.2)
+            target = gf._len + max(400, big // 150)
+            while gf._len < target:
+                gf.raw("    // " + "-=" * rnd.randrange(20, 400) + eol)
             k += 1
         files["src/big.rs"] = gf.data()
     return Project(files, structured=structured, use_cache=use_cache, lock=lock, label=label)
